@@ -572,7 +572,10 @@ def run(ctx):
     for r in bound:
         if r["Dup"] > 0 or r["Count"] != r["Published"]:
             report("deadletter:duplicate" if r["Dup"] > 0 else "deadletter:counter-differs-from-number-published", "burst of %d failed coalesced batches: %d duplicates, count %d vs %d published" % (r["Sent"], r["Dup"], r["Count"], r["Published"]), r)
-        if r["Published"] < r["Sent"]:
+        if r["Published"] < r["Sent"] and r["FirstMissing"] <= r["QueueCap"]:
+            report("deadletter:missing", "real drain goroutine: burst of %d failed one-message coalesced batches: message %d has no dead letter although at most %d batches were queued before it (capacity %d)" %
+                   (r["Sent"], r["FirstMissing"], r["FirstMissing"] - 1, r["QueueCap"]), r)
+        elif r["Published"] < r["Sent"]:
             report(SIG_QUEUE, "real drain goroutine: burst of %d failed one-message coalesced batches, only %d dead letters (first missing id %d); queue capacity %d" %
                    (r["Sent"], r["Published"], r["FirstMissing"], r["QueueCap"]), r)
 
@@ -712,7 +715,7 @@ Eval vm_compute in summary.
 
 
 META = {
-    "ready": False,
+    "ready": True,
     "category": "proof",
     "technique": "Rocq accounting invariant over all interleavings of drop sites, drain goroutine and dead-letter actor + per-step conformance of the real functions + exactly-once oracle",
     "text": "For every sequence of atomic steps of droppers (all causes), the coalescer's error handler, the drain goroutine and the dead-letter "
